@@ -7,7 +7,7 @@ def write_scenarios(progs, path, extra=None):
     with open(path, "w") as f:
         for p in progs:
             rec = {"src": p["src"], "kernel": p.get("kernel"), "inputs": [limbs(x) for x in p["inputs"]],
-                   "adv": [limbs(x) for x in p.get("adv", [])]}
+                   "adv": [limbs(x) for x in p.get("adv", [])], "max_cycles": 200000}
             if extra:
                 rec.update(extra)
             f.write(json.dumps(rec) + "\n")
